@@ -115,7 +115,7 @@ pub fn element_sequences(max_len: usize) -> Vec<Vec<u8>> {
 }
 
 /// Strategy for string-element sequences biased to surrogate escapes.
-fn arb_elements() -> BoxedStrategy<String> {
+pub fn arb_elements() -> BoxedStrategy<String> {
 	let elem = prop_oneof![
 		3 => (0xD800u32..0xDC00).prop_map(|u| format!("\\u{u:04X}")),
 		3 => (0xDC00u32..0xE000).prop_map(|u| format!("\\u{u:04x}")),
